@@ -216,6 +216,98 @@ pub fn check(c: &Case, st: &mut Stats) {
     }
 }
 
+/// States read from JSON: any lattice of the group's family is a valid cell (second side longer
+/// than the first, obtuse angles for the oblique groups), and a site may sit exactly on a cell
+/// face or whole lattice vectors outside the cell.
+#[derive(Clone, Debug, Serialize, Deserialize)]
+pub struct JsonCase {
+    pub group: String,
+    pub lj: bool,
+    pub chiral: bool,
+    pub shape: ShapeSpec,
+    pub length: f64,
+    pub ratio: f64,
+    pub angle: f64,
+    pub x: f64,
+    pub y: f64,
+    pub phi: f64,
+}
+
+pub fn gen_json_case<R: Rng>(rng: &mut R) -> JsonCase {
+    let group = groups::NAMES[rng.gen_range(0, 7)].to_string();
+    let lj = rng.gen_bool(0.4);
+    let coord = |rng: &mut R| match rng.gen_range(0, 4) {
+        0 => [-0.5, 0.5, 1.5, -1.5, 0., 1., 0.25, 2.5][rng.gen_range(0, 8)],
+        1 => rng.gen_range(-3., 3.),
+        _ => rng.gen_range(-0.5, 0.5),
+    };
+    JsonCase {
+        chiral: rng.gen_bool(0.6),
+        shape: if lj { libx::gen::trimer(rng) } else { libx::gen::hard_shape(rng) },
+        lj,
+        length: 10f64.powf(rng.gen_range(-0.5, 1.5)),
+        ratio: if rng.gen_bool(0.5) { rng.gen_range(0.1, 1.) } else { rng.gen_range(1., 8.) },
+        angle: if libx::is_oblique(&group) { rng.gen_range(0.1, PI - 0.1) } else { PI / 2. },
+        x: coord(rng),
+        y: coord(rng),
+        phi: if rng.gen_bool(0.2) { [0., PI, -PI / 2., 3. * PI][rng.gen_range(0, 4)] } else { rng.gen_range(-7., 7.) },
+        group,
+    }
+}
+
+pub fn check_json(c: &JsonCase, st: &mut Stats) {
+    st.eval();
+    let p0 = Params { len: 5., ratio: 1., angle: PI / 2., x: 0.1, y: 0.2, phi: 0.3 };
+    fn edit(v: &mut Value, c: &JsonCase) {
+        v["cell"]["length"] = json!(c.length);
+        v["cell"]["ratio"] = json!(c.ratio);
+        v["cell"]["angle"] = json!(c.angle);
+        v["occupied_sites"][0]["x"] = json!(c.x);
+        v["occupied_sites"][0]["y"] = json!(c.y);
+        v["occupied_sites"][0]["angle"] = json!(c.phi);
+    }
+    macro_rules! via_json {
+        ($state:expr, $ty:ty, $view:expr) => {{
+            let s0 = match $state {
+                Ok(s) => s,
+                Err(_) => return,
+            };
+            let mut v = match serde_json::to_value(&s0) {
+                Ok(v) => v,
+                Err(_) => return,
+            };
+            edit(&mut v, c);
+            match serde_json::from_value::<$ty>(v) {
+                Ok(s) => $view(&s),
+                Err(_) => {
+                    st.count("json_states_not_readable(skipped)");
+                    return;
+                }
+            }
+        }};
+    }
+    let view: SymView = if c.lj {
+        let shape = if c.chiral { chiral_lj() } else { match c.shape.lj() { Some(s) => s, None => return } };
+        via_json!(build_potential(shape, &c.group, &p0), PotentialState<LJShape2>, view_lj)
+    } else if c.chiral {
+        via_json!(build_packed(chiral_line(), &c.group, &p0), PackedState<LineShape>, view_hard)
+    } else if let Some(s) = c.shape.line() {
+        via_json!(build_packed(s, &c.group, &p0), PackedState<LineShape>, view_hard)
+    } else if let Some(s) = c.shape.mol() {
+        via_json!(build_packed(s, &c.group, &p0), PackedState<packing::MolecularShape2>, view_hard)
+    } else {
+        return;
+    };
+    let order = groups::group(&c.group).map(|g| g.ops.len()).unwrap_or(1);
+    if order >= 2 {
+        st.nontrivial(hash64(&[88, hash_str(&c.group), q(c.length, 1e-6), q(c.ratio, 1e-6), q(c.angle, 1e-6), c.x.to_bits(), c.y.to_bits()]));
+    }
+    st.count(if c.angle > PI / 2. + 1e-9 { "json_states[obtuse cell]" } else if c.ratio > 1. { "json_states[second side longer]" } else { "json_states[other]" });
+    if let Some((what, detail)) = check_symmetry(&c.group, &view) {
+        st.violation(Violation { kind: "c04.json".into(), signature: format!("symmetry:{}:{}", c.group, what), case: serde_json::to_value(c).unwrap(), detail });
+    }
+}
+
 /// one state object (hard or LJ) edited again and again, its arrangement checked after every
 /// edit: the placements it reports must have the group's symmetry in the cell it holds now
 pub fn check_history(h: &History, st: &mut Stats) {
@@ -330,7 +422,7 @@ pub fn gen_case<R: Rng>(rng: &mut R, optimised: bool) -> Case {
 }
 
 pub fn run(ctx: &Ctx) {
-    ctx.set_rule("hard and Lennard-Jones states of all 7 groups with chiral test shapes (irregular 7-gon; three unlike LJ particles - sensitive to handedness) and the CLI's shapes; sites uniform and on special positions/bounds, orientations incl. multiples of pi/2, cells of the group's family (length 0.1-30, ratio 0.1-1, oblique angle pi/6-pi/2); plus states after chains of 1-3 optimisation stages (kT 0/0.1/5, step 0.01-0.6, directly and via clone(), read back through JSON) where ratio and angle drift; plus state objects that live through histories of 3-13 edits (several parameters at once - set, rescaled by powers of two, negated, nudged by an ulp, exchanged, reset -, the shape replaced, the cell replaced, clone(), JSON round trip), checked after every edit. Oracle: for every ITA operation, Q = M W M^-1 must be orthogonal (1e-9) and the image of every placed copy must coincide, as a set of points with radii, with some placed copy plus a lattice vector (1e-9 x scale). Non-trivial = group order >= 2 and a shape without full rotational symmetry; distinct by quantised parameters + stage seed");
+    ctx.set_rule("hard and Lennard-Jones states of all 7 groups with chiral test shapes (irregular 7-gon; three unlike LJ particles - sensitive to handedness) and the CLI's shapes; sites uniform and on special positions/bounds, orientations incl. multiples of pi/2, cells of the group's family (length 0.1-30, ratio 0.1-1, oblique angle pi/6-pi/2); plus states after chains of 1-3 optimisation stages (kT 0/0.1/5, step 0.01-0.6, directly and via clone(), read back through JSON) where ratio and angle drift; plus states read from JSON with any lattice of the family (ratio 0.1-8, oblique angles 0.1..pi-0.1) and sites on cell faces, on half-integers and whole lattice vectors outside the cell; plus state objects that live through histories of 3-13 edits (several parameters at once - set, rescaled by powers of two, negated, nudged by an ulp, exchanged, reset -, the shape replaced, the cell replaced, clone(), JSON round trip), checked after every edit. Oracle: for every ITA operation, Q = M W M^-1 must be orthogonal (1e-9) and the image of every placed copy must coincide, as a set of points with radii, with some placed copy plus a lattice vector (1e-9 x scale). Non-trivial = group order >= 2 and a shape without full rotational symmetry; distinct by quantised parameters + stage seed");
     ctx.assume("the ITA table of oracle/groups.rs; placements are read from cartesian_positions() and the cell from its three numbers");
     let n = ctx.tier.pick(5_000u64, 400_000u64);
     let nopt = ctx.tier.pick(40u64, 1_500u64);
@@ -346,6 +438,9 @@ pub fn run(ctx: &Ctx) {
         for _ in 0..n / 10 {
             check_history(&gen_history(rng), st);
         }
+        for _ in 0..n / 4 {
+            check_json(&gen_json_case(rng), st);
+        }
     });
     std::panic::set_hook(prev);
     ctx.set_min_nontrivial(5_000);
@@ -353,7 +448,9 @@ pub fn run(ctx: &Ctx) {
 
 pub fn replay(ctx: &Ctx, case: &Value) {
     let mut st = Stats::new();
-    if let Ok(h) = serde_json::from_value::<History>(case.clone()) {
+    if let Ok(j) = serde_json::from_value::<JsonCase>(case.clone()) {
+        check_json(&j, &mut st);
+    } else if let Ok(h) = serde_json::from_value::<History>(case.clone()) {
         check_history(&h, &mut st);
     } else if let Ok(c) = serde_json::from_value::<Case>(case.clone()) {
         check(&c, &mut st);
